@@ -25,6 +25,20 @@ var identTypeStrings = []struct {
 }{{"purl", 1}, {"cpe22Type", 2}, {"cpe23Type", 3}, {"gitoid", 4}, {"cpe2.3", 3}, {" CPE22 ", 2}, {"nonsense", 0}}
 
 func nlGen(g *G, tier string) []M {
+	ops := nlGen0(g, tier)
+	// a third of the operations run on operands that went through the library's own Copy()
+	// (allocated empty slices and maps instead of nil); drawn from a separate generator so that the
+	// operations themselves are the same as before
+	g2 := NewG(int64(g.Int(1 << 30)))
+	for _, op := range ops {
+		if g2.Chance(0.33) {
+			op["alloc"] = true
+		}
+	}
+	return ops
+}
+
+func nlGen0(g *G, tier string) []M {
 	n := 6000
 	if tier == "thorough" {
 		n = 150000
@@ -89,7 +103,7 @@ func nlGen(g *G, tier string) []M {
 		case 14, 15:
 			ops = append(ops, M{"op": "nodeDescendants", "a": a, "id": anyID(), "depth": float64(g.Int(7) - 1)})
 		case 16:
-			ops = append(ops, M{"op": "purlType", "a": a, "t": g.Pick([]string{"npm", "deb", "golang", "x"})})
+			ops = append(ops, M{"op": "purlType", "a": a, "t": g.Pick([]string{"npm", "deb", "golang", "x", "go", "gem", "n", ""})})
 		case 17:
 			switch g.Int(4) {
 			case 0:
